@@ -358,7 +358,12 @@ def build_c(ast, unit, registry):
     binds = {}
     for rid in unit.replace:
         ru = registry[rid]
-        d = find_one(ast, ru.fn)
+        try:
+            d = find_one(ast, ru.fn)
+        except LowerError:
+            if getattr(unit, 'replace_optional', False):
+                continue        # the callee does not exist in this tree, so it is not called either
+            raise
         # lower only for signature/locals naming; body dropped
         f = L.lower_function(d)
         if f.cname == tf.cname:
@@ -366,8 +371,9 @@ def build_c(ast, unit, registry):
         if f.cname in have:
             raise LowerError("%s both inlined and replaced" % f.cname)
         have.add(f.cname)
+        rc_text = ru.contract(ast, L, f) if callable(ru.contract) else ru.contract
         protos.append('%s%s\n%s%s;' % (ghost_decls(ru, f.cname), f.proto, ghost_requires(ru, f),
-                                        subst(expand_ghost(ru.contract, ru, f.cname), f)))
+                                        subst(expand_ghost(rc_text, ru, f.cname), f)))
         replaced.append(f.cname)
         b = (ru.bind + ' ' + ghost_bind(ru, f.cname)).strip()
         if b:
